@@ -17,7 +17,8 @@ RULE = ("one case = one lookup (start, end or None=now, now, optional metadata f
         "distinct = distinct (times, tags, start, end, now, filter, random)")
 EXHAUSTIVE = {"quick": False, "thorough": True}
 ASSUMPTIONS = ["process clock in UTC (datetime.today() == utcnow(), both replaced by the fake clock)",
-               "strftime('%Y%m%d') injective and monotone on days (exercised across a leap day and a month boundary)",
+               "strftime('%Y%m%d') injective and monotone on days (exercised across a leap day, seven month boundaries and a "
+               "year boundary)",
                "S3 last_modified of an object = instant of its put (fake bucket)"]
 TRUSTED = ["fake bucket behind the real S3BasicFacade; fake clock substituted for s3_tape_cassette.datetime"]
 
@@ -246,7 +247,7 @@ def shrink_candidates(case):
 
 MANIFEST = dict(
     design_ref='6/C16',
-    text='Coq theorems over all integer instants (window exactness, also next to a metadata filter; day cover, nothing outside, distinct folders; legacy defect refuted with a witness) about a hand-written model of _get_id_prefixes + the facade predicate list (last-modified predicate, content predicate); model tied to /repo on every run by running the real S3TapeCassette (fake bucket, fake clock) and the model on the same window grid + random instants, each window without and (every second one) with a metadata filter, ordered or shuffled; direct predicate on the implementation searches for a failing window.',
+    text='Coq theorems over all integer instants (window exactness, also next to a metadata filter; day cover, nothing outside, distinct folders; legacy defect refuted with a witness) about a hand-written model of _get_id_prefixes + the facade predicate list (last-modified predicate, content predicate); model tied to /repo on every run by running the real S3TapeCassette (fake bucket, fake clock) and the model on the same window grid + random instants (4 days, hour / minute / microsecond level) and on wide windows (31-121 day folders over six and a half months, the start on every day of the month), each window without and (every second one) with a metadata filter, ordered or shuffled, every third case again with logging enabled at DEBUG / INFO; direct predicate on the implementation searches for a failing window.',
     note="Trusted: Coq kernel + vm_compute; hand-written model; correspondence harness (fake bucket behind the real S3BasicFacade, fake clock); strftime day formatting and 'process clock is UTC' are assumptions.",
     technique='Coq proof (lia over Z) + model/implementation correspondence by vm_compute',
 )
